@@ -17,6 +17,43 @@ CLAIMED = {
     ),
 }
 
+CLAIMED["C04"] = dict(
+    text="Lean 4 theorems, for trees of any size and any node-test classification: the path utils.getpath writes for a "
+    "node selects, under an evaluator that returns all hits, exactly that node, and its last step carries an explicit "
+    "index (C04_getpath_unique, C04_last_step_indexed, C04_raw_path_unique). The model of libxml2's getpath and of the "
+    "XPath subset is tied to lxml by unit U1 on every run; that every emitted path is getpath of a node of the current "
+    "patch state is checked per case by replaying the real script under the strict semantics (script-level theorem "
+    "pending, see DESIGN.md). Namespace prefix clause: oracle only (namespace stream), not modelled yet.",
+    note="Trusted: Lean kernel and the three standard axioms; hand-written model of getpath/XPath validated against "
+    "lxml by differential execution (U1), not proved; harness and strict-replay oracle.",
+    technique="Lean 4 proof (mutual structural induction over trees) + model/code differential correspondence + strict replay oracle",
+    design="DESIGN.md section 6, C04",
+)
+CLAIMED["C05"] = dict(
+    text="The documented action semantics is an executable Lean interpreter (applyStrict) with every precondition of the "
+    "property as an explicit check; proved for every script and tree: whenever it accepts, the shipped patcher (model "
+    "of patch.py, tied to the code by unit U2) performs the same change (C05_strict_refines_to_shipped). That the "
+    "differ's scripts are accepted is decided per run by replaying every real script under applyStrict and comparing "
+    "with the right document; the unbounded proof of that half (script generation invariant) is not done yet.",
+    note="Trusted: Lean kernel and standard axioms; models of Patcher and of the documented semantics validated by U2/U5 "
+    "differential execution; the replay oracle runs the real scripts through the Lean strict interpreter.",
+    technique="Lean 4 refinement proof (strict semantics => shipped patcher) + correspondence + strict replay of real scripts",
+    design="DESIGN.md section 6, C05",
+)
+CLAIMED["C07"] = dict(
+    text="Lean 4 theorems over a stage-by-stage model of Differ.match (fast_match via the LCS helper, both best_match "
+    "stages, default loop, roots last), for every similarity oracle, every F > 0, every uniqueattrs / ignored_attrs "
+    "configuration and well-formed documents of any size: the match list is injective on both sides, ends with the "
+    "root pair, contains only nodes of the two documents, never pairs a comment with an element, and for elements the "
+    "unique-attribute rule did not veto. The model is tied to the code by unit U4 (match lists compared in order, "
+    "similarity oracle recorded from the real node_ratio).",
+    note="Trusted: Lean kernel and standard axioms; model fidelity checked by U4 on every run; similarity values are an "
+    "oracle (theorems quantify over all oracles). Known finding M2 (several configured unique attributes: the first "
+    "present decides) is listed in known_findings.json.",
+    technique="Lean 4 proof (loop invariants over the matcher model) + model/code differential correspondence",
+    design="DESIGN.md section 6, C07",
+)
+
 NOT_YET = {}
 
 
